@@ -164,6 +164,19 @@ def _call(c):
     return o, o(xs, degree=c["degree"], raw=c["raw"]), o(ys, degree=c["degree"], raw=c["raw"])
 
 
+def _recall(o, c, v):
+    """the fitted object o applied once more, to the values v"""
+    t = c["t"]
+    if t in ("center", "scale"):
+        return o(v)
+    if t == "bs":
+        return o(v, df=c["df"], degree=c["degree"], intercept=c["intercept"],
+                 knots=None if not c.get("knots") else [float(Fraction(k)) for k in c["knots"]],
+                 lower_bound=None if c["lower"] is None else float(Fraction(c["lower"])),
+                 upper_bound=None if c["upper"] is None else float(Fraction(c["upper"])))
+    return o(v, degree=c["degree"], raw=c["raw"])
+
+
 def _mat(a):
     import numpy as np
     a = np.asarray(a, dtype=float)
@@ -283,6 +296,24 @@ def oracle(c):
     A = np.asarray(A, dtype=float)
     B = np.asarray(B, dtype=float)
     scale_ = 1 + np.max(np.abs(xs))
+    # the fitted transform is a function of the value alone: a later value that also occurred in training gets
+    # its training row, and what a later value gets does not depend on the other later values
+    if A.ndim == B.ndim and A.shape[1:] == B.shape[1:] and np.all(np.isfinite(A)) and np.all(np.isfinite(B)):
+        tol = 1e-6 if t == "poly" else 1e-8
+        for j, yv in enumerate(ys):
+            hit = np.flatnonzero(xs == yv)
+            if len(hit) and not np.allclose(B[j], A[hit[0]], rtol=tol, atol=tol * scale_):
+                return (f"{c}: later value {yv} also occurs in the training data but is transformed to "
+                        f"{np.ravel(B[j])[:3].tolist()} instead of its training row {np.ravel(A[hit[0]])[:3].tolist()}")
+        if len(ys) > 1:
+            try:
+                with warnings.catch_warnings():
+                    warnings.simplefilter("ignore")
+                    B1 = np.asarray(_recall(o, c, ys[:1]), dtype=float)
+                if B1.shape[1:] == B.shape[1:] and not np.allclose(B1[0], B[0], rtol=tol, atol=tol * scale_):
+                    return f"{c}: the transform of the later value {ys[0]} depends on the other later values"
+            except Exception:  # noqa
+                pass
     if t == "center":
         if abs(A.mean()) > 1e-9 * scale_:
             return f"{c}: center(x) has mean {A.mean()}"
